@@ -221,8 +221,27 @@ func runC12(c *Ctx) {
 			}
 			c.MustOnAccept("C12-R5", eq, 0, true, reqs)
 		}
+		// the other memo of a transaction, its hash, is filled only by Hash() with the hash it computed from the
+		// contents (a decoder that trusts a hash found in the input would bind the object to a foreign hash)
+		nh := 0
+		for _, fn2 := range c.SrcFns {
+			if fn2.Pkg == nil || relPkg(fn2.Pkg.Pkg.Path()) != "core/types" {
+				continue
+			}
+			for _, cs := range callSites(fn2, `^Value\.Store$`) {
+				recv := c.termOf(fn2, cs.Common().Args[0])
+				if !strings.HasSuffix(recv, ".hash") || !strings.HasPrefix(recv, "Transaction#0") && !strings.Contains(recv, "Transaction") {
+					continue
+				}
+				nh++
+				v := c.termOf(fn2, cs.Common().Args[1])
+				c.Ob("C12-R5", shortFn(fn2)+": the transaction hash memo is filled only with rlpHash of the transaction itself", c.Position(cs.Pos()),
+					shortFn(fn2) == "(*core/types.Transaction).Hash" && mustRe(`^types\.rlpHash\((\d+, )?Transaction#0\)$`).MatchString(v), "hash.Store("+v+")")
+			}
+		}
+		c.Ob("C12-R5", "transaction hash memo store found", "", nh >= 1, fmt.Sprintf("%d", nh))
 	})
-	c.Min("C12-R5", 8)
+	c.Min("C12-R5", 10)
 
 	c.Rule("C12-R6", "signed content is immutable after construction; codecs cover every field", func() {
 		// stores to Transaction.data fields
